@@ -68,6 +68,20 @@ func Load(repo string, patterns ...string) (*World, error) {
 		}
 		w.Funcs[FuncKey(f)] = f
 	}
+	// generic functions whose origin has no body in the program: an instantiation stands for them (same key)
+	var insts []*ssa.Function
+	for f := range ssautil.AllFunctions(prog) {
+		if f.Origin() != nil && len(f.Blocks) > 0 {
+			insts = append(insts, f)
+		}
+	}
+	sort.Slice(insts, func(i, j int) bool { return insts[i].String() < insts[j].String() })
+	for _, f := range insts {
+		k := FuncKey(f)
+		if g, ok := w.Funcs[k]; !ok || len(g.Blocks) == 0 {
+			w.Funcs[k] = f
+		}
+	}
 	// AllFunctions misses unexported / unreferenced functions sometimes: add package members explicitly
 	for _, p := range prog.AllPackages() {
 		for _, m := range p.Members {
